@@ -1,13 +1,18 @@
 #!/bin/bash
-# Regenerates /verif/obligations.lock (the names every check must generate) and the evidence files by running
-# every claimed check once on /repo. Run after contract or engine changes, on an unchanged tree only.
+# Regenerates /verif/obligations.lock (the names every check must generate) by running the claimed checks with
+# --write-lock on /repo. With arguments: only those properties (the other properties' lines are kept).
+# Run after contract or engine changes, on an unchanged tree only.
 cd /verif
-: > /tmp/lock.new
-for p in $(python3 -c "import json;print(' '.join(c['property_id'] for c in json.load(open('MANIFEST.json'))['checks']))"); do
+props="$*"
+all=$(python3 -c "import json;print(' '.join(c['property_id'] for c in json.load(open('MANIFEST.json'))['checks']))")
+[ -z "$props" ] && props="$all"
+cp obligations.lock /tmp/lock.keep
+for p in $props; do
   echo "== $p" >&2
   bin/evyvc check --prop $p --write-lock > /tmp/lock.$p.out 2> /tmp/lock.$p.err
   echo "exit=$? $(tail -1 /tmp/lock.$p.err)" >&2
-  grep "^$p " /tmp/lock.$p.out >> /tmp/lock.new
+  grep -v "^$p " /tmp/lock.keep > /tmp/lock.keep2; mv /tmp/lock.keep2 /tmp/lock.keep
+  grep "^$p " /tmp/lock.$p.out >> /tmp/lock.keep
 done
-sort -u /tmp/lock.new > obligations.lock
+sort -u /tmp/lock.keep > obligations.lock
 wc -l obligations.lock >&2
